@@ -328,6 +328,9 @@ def client_actor(world, cid_hint, spec, result):
                 elif kind == "gate":
                     world.gates[cid] = True
                     world.net.changed()
+                elif kind == "oob":
+                    # one byte of TCP urgent data
+                    c.send_oob()
                 elif kind == "any-app-waiting":
                     # until the gated application of ANY connection is blocked (a worker is occupied)
                     world.wait_until(lambda: any(isinstance(k, tuple) and k[0] == "waiting" and v for k, v in world.gates.items())
